@@ -25,6 +25,10 @@ func runMoreSuites(suite string, r *rand.Rand, res *Result, thorough bool) bool 
 		res.Rule = "random interleavings of up to 6 open transactions (Begin/Get/Set/Delete/Commit/Discard, misuse of finished handles, oversize values) over 3-8 adversarial keys on a real DB with tiny thresholds (memtable 60-2000 B, blocks 1-200 B, L0TargetNum 1-4, LevelRatio 1-4, ImmutableBuffer 0-3); the flusher is gated by the hooks and released by generator ops, so rotation, flush-add, compaction and flush-remove fall between the API calls the generator chooses; Close/Open cycles with a re-drawn configuration; every API result, every table content and every watermark value is replayed through the Lean model; non-trivial = concurrent transactions, discard, misuse or reopen"
 		runCases(s, dbGen(r, scale(40, 600), scale(120, 250), true), res)
 		runCases(s, dbGenManyTables(r, scale(4, 60)), res)
+	case "closerace":
+		s := Suite{Name: "closerace", DriverSuite: "disk", Exec: closeraceExec}
+		res.Rule = "1-6 writer goroutines committing unique keys as fast as they can with rotation on (almost) every commit, 0-4 reader goroutines, a flusher slowed down by the hook, ImmutableBuffer in {0,1,2,10}, and a Close fired after 0-11 ms while they run; every call runs under a watchdog (15 s, goroutine stacks as replay); writers must get nil or ErrDBClosed; after Close the directory is reopened and every acknowledged commit read back; non-trivial = every case"
+		runCases(s, closeraceGen(r, scale(40, 600)), res)
 	case "crash":
 		s := Suite{Name: "crash", DriverSuite: "disk", Exec: crashExec}
 		res.Rule = "workloads of 14-27 multi-key transactions (Set/Delete, 1-4 keys) with thresholds that force rotations, flushes and multi-level compactions, Close/Open in between; every file-system operation (create, write, sync, rename, remove of wal, temporary and table files, from every goroutine) is serialised by the hooks and (1) replayed as an event through the Lean acceptance check Disk.accept, (2) preceded by a crash image of the directory which is opened by the real Open and compared with the model's recovery of the same prefix and with the acknowledged state (in-flight transaction all or nothing); images with unsynced tails cut at several lengths; crash again inside the recovery of an image; a commit after recovery on a sample; non-trivial = every case"
@@ -55,6 +59,8 @@ func moreSuiteByName(name string) (Suite, bool) {
 		return Suite{Name: "txnconc", DriverSuite: "hist", Exec: txnconcExec}, true
 	case "crash":
 		return Suite{Name: "crash", DriverSuite: "disk", Exec: crashExec}, true
+	case "closerace":
+		return Suite{Name: "closerace", DriverSuite: "disk", Exec: closeraceExec}, true
 	}
 	return Suite{}, false
 }
